@@ -286,6 +286,8 @@ def gen_history(r, name, kind="std"):
         need = 1000000 // d.rs + 1
         # need = the chunk size VSwrite picks; more than that many records go through the buffer in several pieces
         n1 = r.choice([need + 1, need + 1, need + r.randrange(1, 6), need, max(1, need - 1)])
+        if name.endswith("0"):      # at least one history per run needs three passes through the transfer buffer
+            n1 = 2 * need + r.randrange(1, 4)
         do_write(0, d, n=n1, pos=0)
         if r.random() < 0.5:
             do_write(0, d, n=r.choice([1, 2, need]), pos=r.choice([0, d.nrec, d.nrec // 2]))
@@ -334,7 +336,7 @@ def gen_history(r, name, kind="std"):
         d = vds[v]
         k = r.random()
         if mal and r.random() < 0.25:
-            m = r.randrange(12)
+            m = r.randrange(13)
             if m == 0:
                 L.append("read %d %d %d" % (v, r.choice([0, -1, -3]), r.choice([0, 1])))
             elif m == 1:
@@ -366,6 +368,8 @@ def gen_history(r, name, kind="std"):
                 L.append(r.choice(["elts %d", "read %d 1 0", "seek %d 0", "detach %d", "inquire %d", "nfields %d"]) % r.choice(det))
             elif m == 11:
                 L.append("write %d 1 2 %s" % (v, "00" * d.rs))
+            elif m == 12:
+                L.append("field %d %d" % (v, r.choice([-1, len(d.fields), len(d.fields) + 3])))
             continue
         if k < 0.30 and d.att == "w":
             do_write(v, d)
@@ -378,7 +382,7 @@ def gen_history(r, name, kind="std"):
             do_query(v, d)
         elif k < 0.80:
             do_pack(v, d)
-        elif k < 0.83 and d.att == "w" and d.nrec == 0 and not d.persisted:
+        elif k < 0.83 and d.att == "w" and d.nrec == 0:
             il = r.choice([0, 1])
             L.append("setil %d %d" % (v, il))
             d.full = il == 0
@@ -556,7 +560,7 @@ def run(ctx):
     for fn in sorted(os.listdir(cdir)) if os.path.isdir(cdir) else []:
         corpus += split_histories([l for l in open(os.path.join(cdir, fn)).read().splitlines() if l.strip() and not l.startswith("#")])
     quick = ctx.tier == "quick"
-    nh = 220 if quick else 4000
+    nh = 190 if quick else 4000
     hists = list(corpus)
     hists += [gen_history(r, "g%d" % i, "std") for i in range(nh)]
     hists += [gen_history(r, "n%d" % i, "noil") for i in range(nh // 6)]
